@@ -374,9 +374,9 @@ def do_part(test, ph, part):
                 stream.write("TOK%dK\n" % tok)
     if part.get("waitForTest") is not None:
         # a test that can only go on once a test of another layer (running in another process at the same time) has
-        # started: it watches the trace file for that test's start, for at most 25 seconds
+        # started: it watches the trace file for that test's start, for at most 45 seconds
         want_ = part["waitForTest"]
-        deadline_ = time.time() + 25
+        deadline_ = time.time() + 45
         ok_ = False
         while time.time() < deadline_ and not ok_:
             try:
